@@ -58,7 +58,15 @@ class Repartition(Expr):
         ):
             new_partitions = self.operand("new_partitions")
             if isinstance(new_partitions, Callable):
-                return new_partitions(self.frame.npartitions)
+                new_partitions = new_partitions(self.frame.npartitions)
+            if (
+                type(self) is Repartition
+                and new_partitions > self.frame.npartitions
+                and self.frame.known_divisions
+            ):
+                # The new divisions are interpolated and de-duplicated, which
+                # can leave fewer partitions than requested
+                return len(self.divisions) - 1
             return new_partitions
         return super().npartitions
 
